@@ -158,7 +158,7 @@ theorem bvRect_binary {g : ListOp2} (hg : Natural2 g) (r v : Raw α) (hr : RectR
 
 /-- the operand an operation brings in -/
 def bvOperand? : BVMat.Op α → Option (BVMat.Operand α)
-  | .insert _ v | .adjoin v | .append v | .incorp _ v => some v
+  | .insert _ v | .insertMany _ v | .adjoin v | .append v | .incorp _ v => some v
   | _ => none
 
 /-- **One raw taxa edit keeps identities attached to raw values.** -/
@@ -194,6 +194,26 @@ theorem applyRaw_rows (op : BVMat.Op α) (hop : op.restandardises = true) (r r' 
         rcases bvRows_binary (natural2_insert k) r v.raw hr hvr hlen' e he with h1 | h1
         · exact Or.inl h1
         · exact Or.inr ⟨v, rfl, h1⟩
+  | insertMany ks v =>
+    have hvr := hv v rfl
+    simp only [applyRaw] at h
+    split at h
+    · cases h
+    · rename_i hlen
+      split at h
+      · cases h
+      · split at h
+        · cases h
+        · split at h
+          · cases h
+          · cases h
+            have hlen' : r.1.length = v.raw.1.length := by
+              simp only [Operand.raw]; simp only [ne_eq, Decidable.not_not] at hlen; exact hlen.symm
+            refine ⟨bvRect_binary (natural2_insertMany ks) r v.raw hr hvr, ?_⟩
+            intro e he
+            rcases bvRows_binary (natural2_insertMany ks) r v.raw hr hvr hlen' e he with h1 | h1
+            · exact Or.inl h1
+            · exact Or.inr ⟨v, rfl, h1⟩
   | adjoin v =>
     have hvr := hv v rfl
     simp only [applyRaw] at h
